@@ -4,7 +4,8 @@
    beyond plain ASCII, Unicode case mapping, int64<->float64 and nested container types). *)
 From Coq Require Import String.
 From Coq Require Import ZArith NArith Bool List.
-From PcoreV Require Import Model.Base Model.Format Model.FormatShare.
+From PcoreV Require Import Model.Base Model.Format Model.FormatShare Model.FormatSprintf.
+From PcoreV Require Import Proofs.FormatSprintf.
 From PcoreV Require Import Proofs.FormatProofs Proofs.FormatWidth Proofs.FormatTotal Proofs.FormatRadix Proofs.FormatRadixPad Proofs.FormatNoFault Proofs.FormatShare.
 Import ListNotations.
 Open Scope Z_scope.
@@ -307,3 +308,73 @@ Example C20_sharing_ex :
   /\ lok [] (LArr (Some 7%N) [LArr (Some 7%N) []]) = false
   /\ format_value_g o0 (LArr (Some 7%N) [LArr (Some 7%N) []]) FDefault = Some (OText (lit "[<recursive reference>]")).
 Proof. vm_compute. repeat split. Qed.
+
+(* --- the sprintf style entry points: every directive renders as that directive alone ----------- *)
+
+(* types.PuppetSprintf(format, args...) / PuppetFprintf (Model/FormatSprintf.v: `sp_run` is fprintf's walk over
+   the runes of the format text, `sprintf` the call on a byte string).  A format text made of segments -
+   literal runes (none is '%'), `%%`, and directives `%`body letter (body: any runes but ASCII letters, not
+   starting with '%', '<' or '{') - applied to the argument list of the directives' values gives, for every
+   number and order of segments, whatever directives and values came earlier in the same call:
+   the literal text, '%', and for every directive the text `sp_apply` gives for that directive and that value
+   ALONE (expect); the first directive that fails alone decides the error.  `sp_apply` is
+   px.NewFormatContext3(value, directive) + ToString: C20_sprintf_single_is_format_value. *)
+Theorem C20_sprintf_directives_alone :
+  forall (segs : list seg) (pos : nat) (args : list value) (out : str),
+    Forall pos_ok segs ->
+    skipn pos args = flat_map seg_vals segs ->
+    sp_run (map Some (flat_map seg_runes segs)) args MText pos false (flat_map seg_os segs) out = expect segs out.
+Proof. exact sprintf_positional. Qed.
+Print Assumptions C20_sprintf_directives_alone.
+
+(* the keyed forms %<key>directive and %{key} (the default rendering) against the one Hash argument:
+   every key (any runes but the closing '>' / '}') that the hash holds selects its value *)
+Theorem C20_sprintf_keyed_directives_alone :
+  forall (es : list (value * value)) (segs : list seg) (keyed : bool) (out : str),
+    Forall (key_ok es) segs ->
+    sp_run (map Some (flat_map seg_runes segs)) [VHash es] MText 0 keyed (flat_map seg_os segs) out = expect segs out.
+Proof. exact sprintf_keyed. Qed.
+Print Assumptions C20_sprintf_keyed_directives_alone.
+
+(* on the level of the call, for format texts written in ASCII (the runes of the text are its bytes; other
+   literal text is decoded by `runes`, tied by the correspondence) *)
+Theorem C20_sprintf_text :
+  forall (segs : list seg),
+    Forall pos_ok segs -> Forall seg_ascii segs ->
+    sprintf (flat_map seg_os segs) (format_text segs) (flat_map seg_vals segs) = expect segs [].
+Proof. exact sprintf_positional_text. Qed.
+Print Assumptions C20_sprintf_text.
+
+Theorem C20_sprintf_keyed_text :
+  forall (es : list (value * value)) (segs : list seg),
+    Forall (key_ok es) segs -> Forall seg_ascii segs ->
+    sprintf (flat_map seg_os segs) (format_text segs) [VHash es] = expect segs [].
+Proof. exact sprintf_keyed_text. Qed.
+Print Assumptions C20_sprintf_keyed_text.
+
+(* the single rendering inside a call is format_value, the function all other theorems of this file are about;
+   so when every directive alone gives a text, the call gives these texts, in order, between the literal text *)
+Theorem C20_sprintf_single_is_format_value :
+  forall (o : oracle) (v : value) (spec : fspec) (t : str),
+    sp_apply o v spec = SpText t <-> format_value o v spec = Some (OText t).
+Proof. exact sp_apply_text. Qed.
+Print Assumptions C20_sprintf_single_is_format_value.
+
+Theorem C20_sprintf_texts_in_order :
+  forall (segs : list seg) (ts : list str) (out whole : str),
+    Forall2 (fun x t => format_value (fst (fst x)) (snd (fst x)) (snd x) = Some (OText t)) (seg_specs segs) ts ->
+    seg_texts segs ts = Some whole ->
+    expect segs out = SpText (out ++ whole).
+Proof. exact expect_texts. Qed.
+Print Assumptions C20_sprintf_texts_in_order.
+
+(* sprintf("%05d|%05d %%", 42, 7); the keyed form with a default rendering; the first failing directive decides *)
+Example C20_sprintf_ex :
+  sprintf [o0; o0] (lit "%05d|%05d %%") [VInt 42; VInt 7] = SpText (lit "00042|00007 %")
+  /\ sprintf [o0; o0; o0] (lit "%<a>#x, %{b} and %<b>-4sX") [VHash [(VStr (lit "a"), VInt 255); (VStr (lit "b"), VStr (lit "c"))]]
+     = SpText (lit "0xff, c and c   X")
+  /\ sprintf [o0; o0; o0] (lit "%d %q %z") [VInt 1; VInt 2; VInt 3] = SpErr (SpFormat (EUnsupported 113 KdInteger))
+  /\ sprintf [o0; o0] (lit "%d %") [VInt 1; VInt 2] = SpErr SpIllegalArgument
+  /\ sprintf [o0; o0] (lit "%d %<k>d") [VInt 1; VInt 2] = SpErr SpIllegalArguments
+  /\ Forall pos_ok [SDir [[48%N]; [53%N]] 100%N (VInt 42) o0; SLit [[124%N]]; SDir [[48%N]; [53%N]] 100%N (VInt 7) o0].
+Proof. vm_compute. repeat split. repeat constructor. Qed.
